@@ -389,3 +389,62 @@ func funcPaths(fn *ssa.Function, cap int) ([]*Path, *keyer, bool) {
 	ps, ok := enumPaths(fn, k, fn.Blocks[0], isReturnBlock, nil, cap)
 	return ps, k, ok
 }
+
+// FactsAtEdge returns the must-facts holding when control flows from block `from` to `to`.
+func (ff *FuncFacts) FactsAtEdge(from, to *ssa.BasicBlock) factSet {
+	out := factSet{}
+	for k, f := range ff.At(from) {
+		out[k] = f
+	}
+	for _, f := range ff.K.edgeFacts(from, to) {
+		out[fkey(f)] = f
+	}
+	return out
+}
+
+// FlagTrueFacts analyses a boolean flag built from constants (found := false; ...; found = true):
+// it returns, for every way the flag can become true, the must-facts holding at the point where
+// the constant true is assigned. ok=false when some source of the flag is not a boolean constant
+// or a phi of such (then the flag is opaque).
+func (ff *FuncFacts) FlagTrueFacts(v ssa.Value) (sets []factSet, ok bool) {
+	ok = true
+	seen := map[ssa.Value]bool{}
+	var rec func(v ssa.Value)
+	rec = func(v ssa.Value) {
+		if seen[v] {
+			return
+		}
+		seen[v] = true
+		phi, isPhi := v.(*ssa.Phi)
+		if !isPhi {
+			if _, isC := constBool(v); !isC {
+				ok = false
+			}
+			return
+		}
+		for i, e := range phi.Edges {
+			if b, isC := constBool(e); isC {
+				if b {
+					sets = append(sets, ff.FactsAtEdge(phi.Block().Preds[i], phi.Block()))
+				}
+				continue
+			}
+			rec(e)
+		}
+	}
+	if _, isPhi := v.(*ssa.Phi); !isPhi {
+		return nil, false
+	}
+	rec(v)
+	return sets, ok
+}
+
+// anyFact reports whether the set has a fact of the polarity accepted by match.
+func (s factSet) any(pol bool, match func(v ssa.Value, key string) bool) bool {
+	for _, f := range s {
+		if f.Pol == pol && match(f.V, f.Key) {
+			return true
+		}
+	}
+	return false
+}
